@@ -39,7 +39,10 @@ pub fn run(plan_path: &str, out_path: &str) -> anyhow::Result<i32> {
         let backend = c["backend"].as_str().unwrap_or("inmemory");
         let driver = c["driver"].as_str().unwrap_or("lib");
         // representable snapshot time?
-        let margin = if age >= 0 { Duration::seconds(3600) } else { Duration::seconds(-3600) };
+        // the fractional part of the age: 1 h by default; "frac_h" hours (< 24) otherwise, so that the snapshot was
+        // stored earlier or later in the day than the request is made (whole elapsed days are what counts)
+        let fh = c["frac_h"].as_i64().unwrap_or(1).clamp(1, 23);
+        let margin = if age >= 0 { Duration::seconds(3600 * fh) } else { Duration::seconds(-3600 * fh) };
         let ts = match Duration::try_days(age).and_then(|d| d.checked_add(&margin)).and_then(|d| Utc::now().checked_sub_signed(d)) {
             Some(t) => t,
             None => {
